@@ -222,7 +222,7 @@ def seeds(segs: R.Segments) -> dict:
             R.K_SEG_SIZE: str(segs.good.size).encode(), R.K_OFF: str(off).encode(), R.K_LEN: str(ln).encode()})
     big = {b"vgi_rpc.protocol_version": b"1.2.0", b"traceparent": b"00-" + b"a" * 32 + b"-" + b"b" * 16 + b"-01",
            b"tracestate": b"k=v", b"x-custom": b"\xff\xfe\xfd", b"vgi_rpc.request_id": b"r" * 40}
-    out["bigmd"] = world.raw_request(b"up", R.METHODS["unary"][1][1], {"s": "payload " * 8}, md=big)
+    out["bigmd"] = world.raw_request(b"up", R.schema_of("up"), {"s": "payload " * 8}, md=big)
     return out, (off, ln)
 
 
